@@ -336,6 +336,28 @@ def hwalkEntry (h : HHeap) (off : Addr) : Nat → Addr → List Addr
 def hlistForEachEntry (h : HHeap) (fuel l : Nat) (off : Addr) : List Addr :=
   hwalkEntry h off fuel (mcastOutOrNull (ptrOf (h.first l)) off)
 
+/-! ### container_of with a side-effecting argument (the NULL-safe pop idiom)
+
+`mcast_out_or_null(slist_pop_first(&head), T, member)`: `mcast_out_or_null` is a GNU statement
+expression that copies its argument into a temporary, `mcast_out` / `mcast_in` mention theirs once —
+the argument expression is evaluated EXACTLY ONCE.  That is the contract the operation language
+assumes: the macros are functions of an already evaluated pointer (`mcastOut`, `mcastIn`,
+`mcastOutOrNull`), so one pop idiom = one pop. -/
+
+/-- `mcast_out_or_null(slist_pop_first(&head), T, member)` -/
+def slistPopFirstEntry (h : SHeap) (head : Nat) (off : Addr) : SHeap × Addr :=
+  let r := slistPopFirst h head
+  (r.1, mcastOutOrNull (ptrOf r.2) off)
+/-- pop helper of the dlist idiom: `n = head->next; if (n == head) return NULL; dlist_del_init(n); return n;` -/
+def dlistPopFirst (h : Heap) (head : Nat) : Heap × Option Nat :=
+  let n := h.next head
+  if n = head then (h, none) else (dlistDelInit h n, some n)
+/-- pop helper of the hlist idiom: `n = head->first; if (!n) return NULL; hlist_del(n); return n;` -/
+def hlistPopFirst (h : HHeap) (l : Nat) : HHeap × Option Nat :=
+  match h.first l with
+  | none => (h, none)
+  | some n => (hlistDel h n, some n)
+
 /-! ### loops whose body may change the list -/
 
 /-- `dlist_for_each_safe(pos, n, head)`:
